@@ -322,14 +322,32 @@ def decide(line, out, raw=NOVAL):
         return []
     try:
         if op in MPC_SIG:
-            return _decide_mpc(op, parse_args(MPC_SIG[op], a), raw)
+            return _canon_monitor(op, raw) + _decide_mpc(op, parse_args(MPC_SIG[op], a), raw)
         if op in MPI_SIG:
-            return _decide_mpi(op, parse_args(MPI_SIG[op], a), raw, _line_rng(line))
+            return _canon_monitor(op, raw) + _decide_mpi(op, parse_args(MPI_SIG[op], a), raw, _line_rng(line))
         if op in ("iv_cmp", "iv_eq", "iv_ne", "iv_contains", "iv_convert"):
             return _decide_ctx(op, a, raw, _line_rng(line))
     except MemoryError:
         return []
     return []
+
+
+def _canon_monitor(op, raw):
+    """C01 for the libmpc / libmpi layer: every raw mpf tuple in the result (components of complex numbers, interval endpoints,
+    special values included) is one of the canonical encodings"""
+    V = []
+
+    def walk(o, path):
+        if isinstance(o, (tuple, list)):
+            if len(o) == 4 and all(isinstance(x, int) or type(x).__name__ == "mpz" for x in o) and not isinstance(o[0], (tuple, list)):
+                t = tuple(int(x) for x in o)
+                if not is_canonical(t):
+                    V.append(("C01", op + ".noncanonical" + path, "component %r is not a canonical encoding" % (t,)))
+            else:
+                for i, x in enumerate(o):
+                    walk(x, path + "[%d]" % i)
+    walk(raw, "")
+    return V
 
 
 def _rok(prec, rnd, x, r):
